@@ -1,22 +1,27 @@
 /-
   Pure lemmas about `Kernel.kumount` on the kernel mount-table model (helper lemmas for the
   end-state theorems of Props/C03):
-  * `kumount_ok`        what a successful unmount does: the topmost entry at the target, which
-                        no entry has as its parent, is taken out; with unique ids nothing else,
+  * `kumount_ok`        what a successful unmount does: the entry the lookup of the target ends
+                        on (`Kernel.mountedAt`), which no entry has as its parent, is taken out;
+                        with unique ids nothing else,
   * `kumountSeq`        a sequence of unmount calls that stops at the first failure,
   * `kumountSeq_spec`   the table reached is the initial one minus one entry per target done,
   * `kumountSeq_cleared` targets = the mountpoints of a region, all done ⇒ the region is empty
                         and everything outside it is as before, in the same order,
-  * `KWF`               structural well-formedness of a table (ids, parents), an invariant of
-                        the kernel model (`KTWF_empty`, `kmount_KTWF`, `kumount_KTWF`),
-  * `kumountSeq_succeeds` under `KWF`, targets = the mountpoints of the region at/below a
+  * `KWF`               = `KernelResolve.Tree`, the tree discipline of a table (ids, parents), an
+                        invariant of the kernel model (`KTWF_empty`, `kmount_KTWF`, `kumount_KTWF`),
+  * `NoHidden`          (Lemmas/KernelResolve) nothing is covered; kept by `kumount`
+                        (`kumount_noHidden`) and by a mount on a target below which nothing is
+                        mounted (`addMount_noHidden`, `kmount_noHidden`),
+  * `kumountSeq_succeeds` under `NoHidden`, targets = the mountpoints of the region at/below a
                         path, leaf-first ⇒ no call fails (no EBUSY, no EINVAL).
 -/
 import Lc.Model.Kernel
 import Lc.Lemmas.ExportFs
+import Lc.Lemmas.KernelResolve
 
 namespace Lc.KernelUmount
-open Lc Lc.Kernel
+open Lc Lc.Kernel Lc.KernelResolve
 
 /-! ### the region "at or below a path" as package manage sees it -/
 
@@ -111,22 +116,23 @@ theorem filter_id_ne {a b : List KMnt} {m : KMnt} (hn : ((a ++ m :: b).map (·.i
   simp only [bne_self_eq_false, Bool.false_eq_true, if_false]
   rw [List.filter_eq_self.mpr ha, List.filter_eq_self.mpr hb]
 
-/-- a successful `kumount`: the last entry at the target, no entry having it as parent; the
-    new table is the old one without the entries of that id, counters untouched -/
+/-- a successful `kumount`: the entry the lookup of the target ends on, no entry having it as
+    parent; the new table is the old one without the entries of that id, counters untouched -/
 theorem kumount_ok {t t' : KTable} {p : Bytes} (h : kumount t p = .ok t') :
-    ∃ a m b, t.mnts = a ++ m :: b ∧ m.mp = p ∧ (∀ x ∈ b, x.mp ≠ p) ∧
+    ∃ a m b, t.mnts = a ++ m :: b ∧ m.mp = p ∧ mountedAt t.mnts p = some m ∧
       (∀ c ∈ t.mnts, c.parent ≠ m.id) ∧
       t' = { t with mnts := t.mnts.filter (·.id != m.id) } := by
   unfold kumount at h
   split at h
   · cases h
   · rename_i m hm
-    obtain ⟨a, b, he, hp, hb⟩ := topmostAt_some hm
+    obtain ⟨_, hmem, hp⟩ := mountedAt_spec hm
+    obtain ⟨a, b, he⟩ := List.append_of_mem hmem
     split at h
     · cases h
     · rename_i hany
       injection h with h
-      refine ⟨a, m, b, he, hp, hb, ?_, h.symm⟩
+      refine ⟨a, m, b, he, hp, hm, ?_, h.symm⟩
       intro c hc hpar
       apply hany
       exact List.any_eq_true.mpr ⟨c, hc, by simpa using hpar⟩
@@ -134,7 +140,7 @@ theorem kumount_ok {t t' : KTable} {p : Bytes} (h : kumount t p = .ok t') :
 /-- … with unique ids exactly that one entry goes -/
 theorem kumount_ok_nodup {t t' : KTable} {p : Bytes} (h : kumount t p = .ok t')
     (hn : (t.mnts.map (·.id)).Nodup) :
-    ∃ a m b, t.mnts = a ++ m :: b ∧ m.mp = p ∧ (∀ x ∈ b, x.mp ≠ p) ∧
+    ∃ a m b, t.mnts = a ++ m :: b ∧ m.mp = p ∧ mountedAt t.mnts p = some m ∧
       t' = { t with mnts := a ++ b } := by
   obtain ⟨a, m, b, he, hp, hb, _, ht⟩ := kumount_ok h
   refine ⟨a, m, b, he, hp, hb, ?_⟩
@@ -143,16 +149,17 @@ theorem kumount_ok_nodup {t t' : KTable} {p : Bytes} (h : kumount t p = .ok t')
   rw [he] at hn ⊢
   exact filter_id_ne hn
 
-/-- why an unmount fails: nothing is mounted there (EINVAL), or the topmost mount there is
-    the parent of another mount (EBUSY) -/
+/-- why an unmount fails: no lookup ends on a mount at that path (EINVAL: nothing is mounted
+    there, or what is mounted there is hidden), or the mount found there is the parent of
+    another mount (EBUSY) -/
 theorem kumount_error {t : KTable} {p : Bytes} {e : KErr} (h : kumount t p = .error e) :
-    (e = .einval ∧ ∀ x ∈ t.mnts, x.mp ≠ p) ∨
-    (e = .ebusy ∧ ∃ m, topmostAt t.mnts p = some m ∧ ∃ c ∈ t.mnts, c.parent = m.id) := by
+    (e = .einval ∧ mountedAt t.mnts p = none) ∨
+    (e = .ebusy ∧ ∃ m, mountedAt t.mnts p = some m ∧ ∃ c ∈ t.mnts, c.parent = m.id) := by
   unfold kumount at h
   split at h
   · rename_i hn
     injection h with h
-    exact .inl ⟨h.symm, topmostAt_none hn⟩
+    exact .inl ⟨h.symm, hn⟩
   · rename_i m hm
     split at h
     · rename_i hany
@@ -160,6 +167,12 @@ theorem kumount_error {t : KTable} {p : Bytes} {e : KErr} (h : kumount t p = .er
       obtain ⟨c, hc, hp⟩ := List.any_eq_true.mp hany
       exact .inr ⟨h.symm, m, hm, c, hc, by simpa using hp⟩
     · cases h
+
+/-- on a table without hidden mounts EINVAL means that nothing is mounted there -/
+theorem mountedAt_none_noHidden {mnts : List KMnt} (h : NoHidden mnts) {p : Bytes}
+    (hn : mountedAt mnts p = none) : ∀ x ∈ mnts, x.mp ≠ p := by
+  rw [mountedAt_eq_topmostAt h] at hn
+  exact topmostAt_none hn
 
 /-! ### a sequence of unmount calls -/
 
@@ -271,20 +284,15 @@ theorem kumountSeq_cleared (t : KTable) (ts : List Bytes) (R : Bytes → Bool)
 
 /-! ### structural well-formedness of a table -/
 
-/-- ids are unique; no entry is its own parent; an entry lies at or below (path-component
-    wise) the mountpoint of its parent; an entry stacked on the mountpoint of its parent comes
-    later in the table than the parent -/
-structure KWF (mnts : List KMnt) : Prop where
-  ids : (mnts.map (·.id)).Nodup
-  noSelf : ∀ c ∈ mnts, c.parent ≠ c.id
-  under : ∀ c ∈ mnts, ∀ m ∈ mnts, c.parent = m.id → pathUnder m.mp c.mp = true
-  order : mnts.Pairwise (fun a b => ¬ (a.parent = b.id ∧ a.mp = b.mp))
+/-- the tree discipline (`KernelResolve.Tree`): ids are unique; no entry is its own parent; an
+    entry's parent is not listed after it; an entry lies at or below the mountpoint of its parent -/
+abbrev KWF (mnts : List KMnt) : Prop := Tree mnts
 
 theorem KWF.sublist {l l' : List KMnt} (hs : l'.Sublist l) (h : KWF l) : KWF l' where
   ids := List.Nodup.sublist (hs.map _) h.ids
   noSelf := fun c hc => h.noSelf c (hs.subset hc)
   under := fun c hc m hm => h.under c (hs.subset hc) m (hs.subset hm)
-  order := List.Pairwise.sublist hs h.order
+  parentFirst := List.Pairwise.sublist hs h.parentFirst
 
 theorem kumount_sublist {t t' : KTable} {p : Bytes} (h : kumount t p = .ok t') :
     t'.mnts.Sublist t.mnts := by
@@ -292,39 +300,81 @@ theorem kumount_sublist {t t' : KTable} {p : Bytes} (h : kumount t p = .ok t') :
   rw [ht]
   exact List.filter_sublist
 
-/-- in a well-formed table, unmounting the topmost entry of a mountpoint below which nothing
-    else is mounted succeeds -/
-theorem kumount_leaf_ok (t : KTable) (p : Bytes) (hwf : KWF t.mnts) (hex : ∃ x ∈ t.mnts, x.mp = p)
+/-- taking a childless entry out of a table without hidden mounts leaves none hidden -/
+theorem NoHidden.remove_leaf {a b : List KMnt} {m : KMnt} (h : NoHidden (a ++ m :: b))
+    (hleaf : ∀ c ∈ a ++ m :: b, c.parent ≠ m.id) : NoHidden (a ++ b) := by
+  have hs : (a ++ b).Sublist (a ++ m :: b) :=
+    List.Sublist.append (List.Sublist.refl a) (List.sublist_cons_self m b)
+  refine { toTree := KWF.sublist hs h.toTree, sib := ?_ }
+  intro x hx y hy hne hsib
+  have hx' := hs.subset hx
+  have hy' := hs.subset hy
+  apply h.sib x hx' y hy' hne
+  -- a root of the smaller table is a root of the larger one: nothing hangs below `m`
+  have hroot : ∀ z ∈ a ++ b, isRootIn (a ++ b) z = true → isRootIn (a ++ m :: b) z = true := by
+    intro z hz hr
+    cases hr2 : isRootIn (a ++ m :: b) z with
+    | true => rfl
+    | false =>
+      exfalso
+      obtain ⟨q, hq, hqid, hqne⟩ := isRootIn_false hr2
+      have hqm : q = m ∨ q ∈ a ++ b := by
+        rcases List.mem_append.mp hq with hq | hq
+        · exact .inr (List.mem_append_left _ hq)
+        · rcases List.mem_cons.mp hq with hq | hq
+          · exact .inl hq
+          · exact .inr (List.mem_append_right _ hq)
+      rcases hqm with hqm | hqm
+      · subst hqm
+        exact hleaf z (hs.subset hz) hqid.symm
+      · exact hqne (isRootIn_true hr q hqm hqid)
+  rcases hsib with hsib | ⟨h1, h2⟩
+  · exact .inl hsib
+  · exact .inr ⟨hroot x hx h1, hroot y hy h2⟩
+
+/-- **`kumount` keeps a table free of hidden mounts** -/
+theorem kumount_noHidden {t t' : KTable} {p : Bytes} (h : NoHidden t.mnts) (hk : kumount t p = .ok t') :
+    NoHidden t'.mnts := by
+  obtain ⟨a, m, b, he, _, _, hleaf, ht⟩ := kumount_ok hk
+  rw [ht]
+  show NoHidden (t.mnts.filter (·.id != m.id))
+  rw [he] at hleaf h ⊢
+  rw [filter_id_ne h.ids]
+  exact NoHidden.remove_leaf h hleaf
+
+/-- in a table without hidden mounts, unmounting a mountpoint below which nothing else is
+    mounted succeeds -/
+theorem kumount_leaf_ok (t : KTable) (p : Bytes) (hnh : NoHidden t.mnts) (hex : ∃ x ∈ t.mnts, x.mp = p)
     (hleaf : ∀ c ∈ t.mnts, pathUnder p c.mp = true → c.mp = p) : ∃ t', kumount t p = .ok t' := by
   obtain ⟨m, hm⟩ := topmostAt_isSome hex
   obtain ⟨a, b, he, hp, hb⟩ := topmostAt_some hm
   unfold kumount
-  rw [hm]
+  rw [mountedAt_eq_topmostAt hnh, hm]
   have hmmem : m ∈ t.mnts := by rw [he]; simp
   have : t.mnts.any (fun c => c.parent == m.id) = false := by
     apply List.any_eq_false.mpr
     intro c hc hpar
     have hpar : c.parent = m.id := by simpa using hpar
-    have hu := hwf.under c hc m hmmem hpar
+    have hu := hnh.under c hc m hmmem hpar
     rw [hp] at hu
     have hcp := hleaf c hc hu
     -- c is stacked on m's mountpoint: it is m itself, or before m, or after m
     rw [he] at hc
     rcases List.mem_append.mp hc with hca | hcb
-    · -- earlier than its parent on the same mountpoint: excluded by `order`
-      have hord := hwf.order
+    · -- listed before its parent: excluded by `parentFirst`
+      have hord := hnh.parentFirst
       rw [he, List.pairwise_append] at hord
-      exact hord.2.2 c hca m (by simp) ⟨hpar, by rw [hcp, hp]⟩
+      exact hord.2.2 c hca m (by simp) hpar
     · rcases List.mem_cons.mp hcb with hcm | hcb
-      · subst hcm; exact hwf.noSelf c hmmem hpar
+      · subst hcm; exact hnh.noSelf c hmmem hpar
       · exact hb c hcb hcp
   simp [this]
 
-/-- **no unmount of a leaf-first cover of a region fails**: table well-formed, the targets
+/-- **no unmount of a leaf-first cover of a region fails**: no mount of the table hidden, the targets
     are exactly the mountpoints of the entries at or below `bp` (as a multiset), and no target
     properly extends an earlier one ⇒ every call succeeds -/
 theorem kumountSeq_succeeds (bp : Bytes) (hbp : bp ≠ [47]) (ts : List Bytes) :
-    ∀ (t : KTable), KWF t.mnts →
+    ∀ (t : KTable), NoHidden t.mnts →
       ts.Perm ((t.mnts.filter (fun m => atOrBelow bp m.mp)).map (·.mp)) →
       ts.Pairwise (fun earlier later => ¬ Ext earlier later) →
       (kumountSeq t ts).2.2 = none := by
@@ -353,7 +403,7 @@ theorem kumountSeq_succeeds (bp : Bytes) (hbp : bp ≠ [47]) (ts : List Bytes) :
     rw [ht']
     show (kumountSeq t' ps).2.2 = none
     obtain ⟨a, m, b, he, hp, _, ht2⟩ := kumount_ok_nodup ht' hwf.ids
-    apply ih t' (hwf.sublist (kumount_sublist ht')) ?_ (List.pairwise_cons.mp hpw).2
+    apply ih t' (kumount_noHidden hwf ht') ?_ (List.pairwise_cons.mp hpw).2
     have h0 : (p :: ps).Perm (p :: (t'.mnts.filter (fun m => atOrBelow bp m.mp)).map (·.mp)) := by
       refine hperm.trans ?_
       rw [ht2, he]
@@ -376,52 +426,6 @@ theorem KTWF_empty : KTWF {} where
   parLt := by simp
   nextPos := by decide
 
-theorem findContaining_spec (mnts : List KMnt) (path : Bytes) (p : KMnt)
-    (h : findContaining mnts path = some p) : p ∈ mnts ∧ pathUnder p.mp path = true := by
-  unfold findContaining at h
-  have key : ∀ (l : List KMnt) (init : Option KMnt),
-      (∀ q, init = some q → q ∈ mnts ∧ pathUnder q.mp path = true) → (∀ x ∈ l, x ∈ mnts) →
-      ∀ q, l.foldl (fun best m =>
-        if pathUnder m.mp path then
-          match best with
-          | none => some m
-          | some b => if b.mp.length ≤ m.mp.length then some m else some b
-        else best) init = some q → q ∈ mnts ∧ pathUnder q.mp path = true := by
-    intro l
-    induction l with
-    | nil => intro init hi _ q hq; exact hi q hq
-    | cons x xs ih =>
-      intro init hi hsub q hq
-      rw [List.foldl_cons] at hq
-      refine ih _ ?_ (fun y hy => hsub y (List.mem_cons_of_mem _ hy)) q hq
-      intro q' hq'
-      by_cases hu : pathUnder x.mp path = true
-      · simp only [hu, if_true] at hq'
-        cases init with
-        | none => cases hq'; exact ⟨hsub x (by simp), hu⟩
-        | some b =>
-          simp only at hq'
-          split at hq'
-          · cases hq'; exact ⟨hsub x (by simp), hu⟩
-          · cases hq'; exact hi _ rfl
-      · simp only [hu, Bool.false_eq_true, if_false] at hq'
-        exact hi q' hq'
-  exact key mnts none (fun q hq => by cases hq) (fun x hx => hx) p h
-
-theorem eq_of_id_eq {l : List KMnt} (hn : (l.map (·.id)).Nodup) {x y : KMnt} (hx : x ∈ l) (hy : y ∈ l)
-    (h : x.id = y.id) : x = y := by
-  induction l with
-  | nil => cases hx
-  | cons z zs ih =>
-    rw [List.map_cons, List.nodup_cons] at hn
-    rcases List.mem_cons.mp hx with hx1 | hx1 <;> rcases List.mem_cons.mp hy with hy1 | hy1
-    · rw [hx1, hy1]
-    · subst hx1
-      exact absurd (show x.id ∈ zs.map (·.id) from List.mem_map.mpr ⟨y, hy1, h.symm⟩) hn.1
-    · subst hy1
-      exact absurd (show y.id ∈ zs.map (·.id) from List.mem_map.mpr ⟨x, hx1, h⟩) hn.1
-    · exact ih hn.2 hx1 hy1
-
 /-- appending an entry with the next id whose parent is 0 or an entry containing it -/
 theorem KTWF_snoc (t : KTable) (e : KMnt) (h : KTWF t) (hid : e.id = t.nextId)
     (hpar : e.parent = 0 ∨ ∃ p ∈ t.mnts, p.id = e.parent ∧ pathUnder p.mp e.mp = true) :
@@ -438,6 +442,15 @@ theorem KTWF_snoc (t : KTable) (e : KMnt) (h : KTWF t) (hid : e.id = t.nextId)
     obtain ⟨x, hx, rfl⟩ := List.mem_map.mp ha
     have hb : b = e.id := by simpa using hb
     have := (h.idLt x hx).2
+    omega
+  · show (t.mnts ++ [e]).Pairwise _
+    rw [List.pairwise_append]
+    refine ⟨h.wf.parentFirst, by simp, ?_⟩
+    intro a ha b hb
+    have : b = e := by simpa using hb
+    subst this
+    intro hc
+    have := h.parLt a ha
     omega
   · intro c hc
     rcases List.mem_append.mp hc with hc | hc
@@ -465,15 +478,6 @@ theorem KTWF_snoc (t : KTable) (e : KMnt) (h : KTWF t) (hid : e.id = t.nextId)
       · have : x = c := by simpa using hx
         subst this
         omega
-  · show (t.mnts ++ [e]).Pairwise _
-    rw [List.pairwise_append]
-    refine ⟨h.wf.order, by simp, ?_⟩
-    intro a ha b hb
-    have : b = e := by simpa using hb
-    subst this
-    intro hc
-    have := h.parLt a ha
-    omega
   · intro x hx
     rcases List.mem_append.mp hx with hx | hx
     · have := h.idLt x hx
@@ -498,7 +502,7 @@ theorem KTWF_snoc (t : KTable) (e : KMnt) (h : KTWF t) (hid : e.id = t.nextId)
 
 /-- the parent `addMount` assigns -/
 def parentId (t : KTable) (mp : Bytes) : Nat :=
-  match findContaining t.mnts mp with
+  match resolve t.mnts mp with
   | some p => p.id
   | none => 0
 
@@ -511,10 +515,10 @@ theorem addMount_KTWF (t : KTable) (m : KMnt) (h : KTWF t) : KTWF (addMount t m)
   apply KTWF_snoc t _ h rfl
   show parentId t m.mp = 0 ∨ ∃ p ∈ t.mnts, p.id = parentId t m.mp ∧ pathUnder p.mp m.mp = true
   unfold parentId
-  cases hf : findContaining t.mnts m.mp with
+  cases hf : resolve t.mnts m.mp with
   | none => exact .inl rfl
   | some p =>
-    obtain ⟨h1, h2⟩ := findContaining_spec _ _ _ hf
+    obtain ⟨h1, h2⟩ := resolve_spec hf
     exact .inr ⟨p, h1, rfl, h2⟩
 
 theorem KTWF_minor (t : KTable) (n : Nat) (h : KTWF t) : KTWF { t with nextMinor := n } :=
@@ -560,5 +564,383 @@ theorem kumount_KTWF (t t' : KTable) (p : Bytes) (h : KTWF t) (hk : kumount t p 
   · have := h.idLt m (hs.subset hm); rw [ht]; exact this
   · have := h.parLt m (hs.subset hm); rw [ht]; exact this
   · rw [ht]; exact h.nextPos
+
+/-! ### mounting where nothing is mounted below keeps the table free of hidden mounts -/
+
+/-- nothing is mounted strictly below `q` (a mount exactly at `q` is allowed: the new mount is
+    then stacked on it) -/
+def NoneBelow (mnts : List KMnt) (q : Bytes) : Prop := ∀ x ∈ mnts, pathUnder q x.mp = true → x.mp = q
+
+theorem isRootIn_snoc (t : KTable) (h : KTWF t) (e : KMnt) (hid : e.id = t.nextId) (x : KMnt) (hx : x ∈ t.mnts) :
+    isRootIn (t.mnts ++ [e]) x = isRootIn t.mnts x := by
+  unfold isRootIn
+  rw [List.any_append]
+  have : ([e].any fun y => y.id == x.parent && y.id != x.id) = false := by
+    have := h.parLt x hx
+    simp only [List.any_cons, List.any_nil, Bool.or_false, Bool.and_eq_false_imp, beq_iff_eq]
+    intro he
+    omega
+  rw [this, Bool.or_false]
+
+/-- **`addMount` on a target below which nothing is mounted hides nothing** -/
+theorem addMount_noHidden (t : KTable) (m : KMnt) (h : KTWF t) (hnh : NoHidden t.mnts)
+    (hnb : NoneBelow t.mnts m.mp) : NoHidden (addMount t m).mnts := by
+  have hk := addMount_KTWF t m h
+  rw [addMount_eq] at hk ⊢
+  refine { toTree := hk.wf, sib := ?_ }
+  show ∀ a ∈ t.mnts ++ [_], ∀ b ∈ t.mnts ++ [_], _
+  generalize hedef : ({ m with id := t.nextId, parent := parentId t m.mp } : KMnt) = e
+  have heid : e.id = t.nextId := by rw [← hedef]
+  have hemp : e.mp = m.mp := by rw [← hedef]
+  have hepar : e.parent = parentId t m.mp := by rw [← hedef]
+  -- the new entry and an old sibling of it: not nested
+  have hnew : ∀ y ∈ t.mnts, Siblings (t.mnts ++ [e]) e y →
+      pathUnder e.mp y.mp = false ∧ pathUnder y.mp e.mp = false := by
+    intro y hy hsib
+    -- it suffices to refute "y contains the target"
+    have hcontra : pathUnder y.mp m.mp = true → False := by
+      intro hyq
+      cases hres : resolve t.mnts m.mp with
+      | some c0 =>
+        have hpid : e.parent = c0.id := by rw [hepar]; unfold parentId; rw [hres]
+        have hc0 := resolve_mem hres
+        -- e is not a root; so y hangs below c0 and contains the target: c0 was not the end
+        have hroot : isRootIn (t.mnts ++ [e]) e = false := by
+          unfold isRootIn
+          have : ((t.mnts ++ [e]).any fun x => x.id == e.parent && x.id != e.id) = true := by
+            apply List.any_eq_true.mpr
+            refine ⟨c0, List.mem_append_left _ hc0, ?_⟩
+            have := (h.idLt c0 hc0).2
+            simp only [Bool.and_eq_true, beq_iff_eq, bne_iff_ne, ne_eq]
+            exact ⟨hpid.symm, by omega⟩
+          rw [this]; rfl
+        rcases hsib with hs | ⟨h1, _⟩
+        · have hyp : y.parent = c0.id := by rw [← hs, hpid]
+          have hne : y.id ≠ c0.id := by rw [← hyp]; exact fun e' => hnh.noSelf y hy e'.symm
+          have := resolve_terminal hnh.toTree hres y hy hyp hne
+          rw [this] at hyq; cases hyq
+        · rw [hroot] at h1; cases h1
+      | none =>
+        have hpid : e.parent = 0 := by rw [hepar]; unfold parentId; rw [hres]
+        -- y is a root of the old table
+        have hyroot : isRootIn t.mnts y = true := by
+          rcases hsib with hs | ⟨_, h2⟩
+          · cases hr : isRootIn t.mnts y with
+            | true => rfl
+            | false =>
+              exfalso
+              obtain ⟨q, hq, hqid, _⟩ := isRootIn_false hr
+              have := (h.idLt q hq).1
+              rw [hqid, ← hs, hpid] at this
+              omega
+          · rw [isRootIn_snoc t h e heid y hy] at h2; exact h2
+        have := resolve_none hres y hy hyroot
+        rw [this] at hyq; cases hyq
+    constructor
+    · cases hc : pathUnder e.mp y.mp with
+      | false => rfl
+      | true =>
+        exfalso
+        rw [hemp] at hc
+        have := hnb y hy hc
+        exact hcontra (by rw [this]; exact pathUnder_refl _)
+    · cases hc : pathUnder y.mp e.mp with
+      | false => rfl
+      | true => exfalso; rw [hemp] at hc; exact hcontra hc
+  intro a ha b hb hne hsib
+  rcases List.mem_append.mp ha with ha1 | ha1 <;> rcases List.mem_append.mp hb with hb1 | hb1
+  · -- both old
+    apply hnh.sib a ha1 b hb1 hne
+    rcases hsib with hs | ⟨h1, h2⟩
+    · exact .inl hs
+    · rw [isRootIn_snoc t h e heid a ha1] at h1
+      rw [isRootIn_snoc t h e heid b hb1] at h2
+      exact .inr ⟨h1, h2⟩
+  · have hbe : b = e := by simpa using hb1
+    rw [hbe] at hsib ⊢
+    have hsib' : Siblings (t.mnts ++ [e]) e a := by
+      rcases hsib with hs | ⟨h1, h2⟩
+      · exact .inl hs.symm
+      · exact .inr ⟨h2, h1⟩
+    exact (hnew a ha1 hsib').2
+  · have hae : a = e := by simpa using ha1
+    rw [hae] at hsib ⊢
+    exact (hnew b hb1 hsib).1
+  · have h1 : a = e := by simpa using ha1
+    have h2 : b = e := by simpa using hb1
+    exact absurd (h1.trans h2.symm) hne
+
+theorem NoneBelow_minor (t : KTable) (n : Nat) (q : Bytes) (h : NoneBelow t.mnts q) :
+    NoneBelow ({ t with nextMinor := n } : KTable).mnts q := h
+
+/-- **a mount call that is not a recursive bind, on a target below which nothing is mounted,
+    leaves no mount hidden** (layercake's own calls have such targets when the configured imports
+    list a mountpoint before the mountpoints below it) -/
+theorem kmount_noHidden (t t' : KTable) (src tgt fstype : Bytes) (flags : Nat) (data : Bytes)
+    (h : KTWF t) (hnh : NoHidden t.mnts) (hnb : NoneBelow t.mnts tgt)
+    (hrec : (hasFlag flags MS_BIND && hasFlag flags MS_REC) = false ∨
+      (hasFlag flags MS_REMOUNT || (flags / 131072) % 16 != 0) = true)
+    (hk : kmount t src tgt fstype flags data = .ok t') : NoHidden t'.mnts := by
+  unfold kmount at hk
+  split at hk
+  · split at hk
+    · cases hk
+    · cases hk; exact hnh
+  · rename_i hstruct
+    split at hk
+    · rename_i hbind
+      split at hk
+      · cases hk
+      · split at hk
+        · rename_i hr
+          rcases hrec with hrec | hrec
+          · rw [hbind, hr] at hrec; cases hrec
+          · exact absurd hrec hstruct
+        · cases hk
+          exact addMount_noHidden _ _ h hnh hnb
+    · split at hk
+      · cases hk
+        exact addMount_noHidden _ _ (KTWF_minor t _ h) hnh hnb
+      · split at hk
+        · split at hk
+          · cases hk; exact addMount_noHidden _ _ h hnh hnb
+          · cases hk; exact addMount_noHidden _ _ (KTWF_minor t _ h) hnh hnb
+        · cases hk
+          exact addMount_noHidden _ _ (KTWF_minor t _ h) hnh hnb
+
+/-! ### recursive bind -/
+
+/-- mountpoints are clean paths: "/" or not ending in a slash -/
+def CleanMps (mnts : List KMnt) : Prop := ∀ x ∈ mnts, x.mp = [47] ∨ x.mp.getLast? ≠ some 47
+
+theorem sl_of_long {p : Bytes} (h : 2 ≤ p.length) : sl p = p ++ [47] := by
+  unfold sl
+  have : (p == [47]) = false := by
+    cases hp : p == [47] with
+    | false => rfl
+    | true => have := beq_iff_eq.mp hp; rw [this] at h; simp at h
+  rw [this]; rfl
+
+/-- where the copy of a mount strictly below the bind source goes: `src/r ↦ tgt/r` -/
+theorem copy_mp {src tgt x : Bytes} (hsrc : src ≠ []) (hu : pathUnder src x = true) (hne : x ≠ src)
+    (hcl : x = [47] ∨ x.getLast? ≠ some 47) :
+    ∃ r, r ≠ [] ∧ x = sl src ++ r ∧ joinRoot tgt (relTail src x) = sl tgt ++ r := by
+  rw [pathUnder_iff] at hu
+  rcases hu with hu | ⟨r, hr⟩
+  · exact absurd hu hne
+  · have hrne : r ≠ [] := by
+      intro e
+      subst e
+      rw [List.append_nil] at hr
+      unfold sl at hr
+      split at hr
+      · rename_i h47
+        exact hne (by rw [hr]; exact (beq_iff_eq.mp h47).symm)
+      · rcases hcl with hcl | hcl
+        · rw [hcl] at hr
+          exact hsrc (List.self_eq_append_left.mp hr)
+        · rw [hr] at hcl
+          simp at hcl
+    refine ⟨r, hrne, hr, ?_⟩
+    have htail : relTail src x = 47 :: r := by
+      unfold relTail
+      by_cases h47 : src = [47]
+      · subst h47
+        have hs : sl [47] = [47] := rfl
+        rw [hs] at hr
+        have hx : (x == [47]) = false := by
+          cases hxx : x == [47] with
+          | false => rfl
+          | true => exact absurd (beq_iff_eq.mp hxx) hne
+        simp only [beq_self_eq_true, if_true, hx, Bool.false_eq_true, if_false]
+        rw [hr]; rfl
+      · have h47' : (src == [47]) = false := by simpa using h47
+        simp only [h47', Bool.false_eq_true, if_false]
+        have hs : sl src = src ++ [47] := by unfold sl; rw [h47']; rfl
+        rw [hr, hs, List.append_assoc, List.drop_left]
+        rfl
+    rw [htail]
+    unfold joinRoot sl
+    by_cases ht : tgt = [47]
+    · subst ht; simp
+    · have ht' : (tgt == [47]) = false := by simpa using ht
+      simp [ht']
+
+/-- nesting of two copies reflects nesting of the originals -/
+theorem copy_reflect {A B r1 r2 : Bytes} (hA : A ≠ []) (hB : B ≠ []) (h1 : r1 ≠ []) (_h2 : r2 ≠ [])
+    (h : pathUnder (A ++ r1) (A ++ r2) = true) : pathUnder (B ++ r1) (B ++ r2) = true := by
+  have lenA : 2 ≤ (A ++ r1).length := by
+    have := List.length_pos_iff.mpr hA
+    have := List.length_pos_iff.mpr h1
+    simp; omega
+  have lenB : 2 ≤ (B ++ r1).length := by
+    have := List.length_pos_iff.mpr hB
+    have := List.length_pos_iff.mpr h1
+    simp; omega
+  rw [pathUnder_iff, sl_of_long lenA] at h
+  rw [pathUnder_iff, sl_of_long lenB]
+  rcases h with h | ⟨t, h⟩
+  · left
+    rw [List.append_cancel_left h]
+  · right
+    refine ⟨t, ?_⟩
+    have : r2 = r1 ++ [47] ++ t := by
+      apply List.append_cancel_left (as := A)
+      rw [h]; simp [List.append_assoc]
+    rw [this]; simp [List.append_assoc]
+
+theorem sl_ne_nil' (p : Bytes) : sl p ≠ [] := sl_ne_nil p
+
+/-- **a recursive bind on a target below which nothing is mounted hides nothing**: the copies of
+    the mounts below the source are attached in table order, each on a place below which
+    nothing is mounted yet (a copy made earlier never lies below a later one) -/
+theorem rbind_noHidden (t : KTable) (root : KMnt) (src tgt : Bytes) (P : KMnt → Bool)
+    (h : KTWF t) (hnh : NoHidden t.mnts) (hnb : NoneBelow t.mnts tgt) (hcl : CleanMps t.mnts)
+    (hsrc : src ≠ []) (hroot : root.mp = tgt)
+    (hP : ∀ c, P c = true → pathUnder src c.mp = true ∧ c.mp ≠ src) :
+    NoHidden ((t.mnts.filter P).foldl (fun acc c =>
+      addMount acc { c with mp := joinRoot tgt (relTail src c.mp) }) (addMount t root)).mnts := by
+  -- state of the fold after the entries `pre` of the table
+  let J := fun (x : Bytes) => joinRoot tgt (relTail src x)
+  have key : ∀ (post pre : List KMnt) (acc : KTable), t.mnts = pre ++ post →
+      KTWF acc → NoHidden acc.mnts →
+      (∀ x ∈ acc.mnts, (∃ y ∈ t.mnts, x.mp = y.mp) ∨ x.mp = tgt ∨ ∃ d ∈ pre, P d = true ∧ x.mp = J d.mp) →
+      NoHidden ((post.filter P).foldl (fun acc c =>
+        addMount acc { c with mp := joinRoot tgt (relTail src c.mp) }) acc).mnts := by
+    intro post
+    induction post with
+    | nil => intro pre acc _ _ hn _; exact hn
+    | cons c post' ih =>
+      intro pre acc he hk hn hsrcs
+      by_cases hPc : P c = true
+      · rw [List.filter_cons, if_pos hPc, List.foldl_cons]
+        have hcm : c ∈ t.mnts := by rw [he]; simp
+        obtain ⟨hcu, hcne⟩ := hP c hPc
+        obtain ⟨rc, hrc, hxc, hJc⟩ := copy_mp (tgt := tgt) hsrc hcu hcne (hcl c hcm)
+        -- nothing is mounted strictly below the place of the copy
+        have hnbc : NoneBelow acc.mnts (J c.mp) := by
+          intro x hx hux
+          have hJt : pathUnder tgt (J c.mp) = true := by
+            show pathUnder tgt (joinRoot tgt (relTail src c.mp)) = true
+            rw [hJc]; exact (pathUnder_iff _ _).mpr (.inr ⟨rc, rfl⟩)
+          have fromTgt : x.mp = tgt → x.mp = J c.mp := by
+            intro hxt
+            rw [hxt] at hux ⊢
+            exact pathUnder_antisymm hJt hux
+          rcases hsrcs x hx with ⟨y, hy, hxy⟩ | hxt | ⟨d, hd, hPd, hxd⟩
+          · apply fromTgt
+            rw [hxy]
+            exact hnb y hy (by rw [← hxy]; exact pathUnder_trans hJt hux)
+          · exact fromTgt hxt
+          · -- an earlier copy: the original lies at/below c and is listed before it
+            have hdm : d ∈ t.mnts := by rw [he]; simp [hd]
+            obtain ⟨hdu, hdne⟩ := hP d hPd
+            obtain ⟨rd, hrd, hxd', hJd⟩ := copy_mp (tgt := tgt) hsrc hdu hdne (hcl d hdm)
+            have hux' : pathUnder (sl tgt ++ rc) (sl tgt ++ rd) = true := by
+              have : pathUnder (J c.mp) (J d.mp) = true := by rw [← hxd]; exact hux
+              show pathUnder (sl tgt ++ rc) (sl tgt ++ rd) = true
+              rw [← hJc, ← hJd]; exact this
+            have hcd : pathUnder c.mp d.mp = true := by
+              rw [hxc, hxd']
+              exact copy_reflect (sl_ne_nil tgt) (sl_ne_nil src) hrc hrd hux'
+            obtain ⟨a, b', hsplit⟩ := List.append_of_mem hd
+            have he2 : t.mnts = a ++ d :: (b' ++ c :: post') := by rw [he, hsplit]; simp
+            have := earlier_below_eq hnh he2 (by simp) hcd
+            rw [hxd]
+            show joinRoot tgt (relTail src d.mp) = joinRoot tgt (relTail src c.mp)
+            rw [this]
+        have hk' := addMount_KTWF acc { c with mp := J c.mp } hk
+        have hn' := addMount_noHidden acc { c with mp := J c.mp } hk hn hnbc
+        apply ih (pre ++ [c]) _ (by rw [he]; simp) hk' hn'
+        intro x hx
+        rw [addMount_eq] at hx
+        rcases List.mem_append.mp hx with hx | hx
+        · rcases hsrcs x hx with h1 | h1 | ⟨d, hd, hPd, hxd⟩
+          · exact .inl h1
+          · exact .inr (.inl h1)
+          · exact .inr (.inr ⟨d, List.mem_append_left _ hd, hPd, hxd⟩)
+        · have hxe : x.mp = J c.mp := by
+            rw [List.mem_singleton.mp hx]
+          exact .inr (.inr ⟨c, by simp, hPc, hxe⟩)
+      · rw [List.filter_cons, if_neg hPc]
+        apply ih (pre ++ [c]) acc (by rw [he]; simp) hk hn
+        intro x hx
+        rcases hsrcs x hx with h1 | h1 | ⟨d, hd, hPd, hxd⟩
+        · exact .inl h1
+        · exact .inr (.inl h1)
+        · exact .inr (.inr ⟨d, List.mem_append_left _ hd, hPd, hxd⟩)
+  apply key t.mnts [] (addMount t root) rfl (addMount_KTWF t root h)
+    (addMount_noHidden t root h hnh (by rw [hroot]; exact hnb))
+  intro x hx
+  rw [addMount_eq] at hx
+  rcases List.mem_append.mp hx with hx | hx
+  · exact .inl ⟨x, hx, rfl⟩
+  · exact .inr (.inl (by rw [List.mem_singleton.mp hx]; exact hroot))
+
+/-- **every successful `kmount` on a target below which nothing is mounted leaves no mount
+    hidden** (recursive binds included; clean mountpoints, a non-empty source path) -/
+theorem kmount_noHidden_all (t t' : KTable) (src tgt fstype : Bytes) (flags : Nat) (data : Bytes)
+    (h : KTWF t) (hnh : NoHidden t.mnts) (hnb : NoneBelow t.mnts tgt) (hcl : CleanMps t.mnts)
+    (hsrc : src ≠ []) (hk : kmount t src tgt fstype flags data = .ok t') : NoHidden t'.mnts := by
+  by_cases hrec : (hasFlag flags MS_BIND && hasFlag flags MS_REC) = false ∨
+      (hasFlag flags MS_REMOUNT || (flags / 131072) % 16 != 0) = true
+  · exact kmount_noHidden t t' src tgt fstype flags data h hnh hnb hrec hk
+  · unfold kmount at hk
+    have hns : (hasFlag flags MS_REMOUNT || (flags / 131072) % 16 != 0) = false := by
+      cases hh : (hasFlag flags MS_REMOUNT || (flags / 131072) % 16 != 0) with
+      | false => rfl
+      | true => exact absurd (.inr hh) hrec
+    have hbr : hasFlag flags MS_BIND = true ∧ hasFlag flags MS_REC = true := by
+      cases hb : hasFlag flags MS_BIND <;> cases hr : hasFlag flags MS_REC <;> simp [hb, hr] at hrec ⊢
+    rw [hns] at hk
+    simp only [Bool.false_eq_true, if_false, hbr.1, hbr.2, if_true] at hk
+    split at hk
+    · cases hk
+    · rename_i m hm
+      cases hk
+      unfold bindOne
+      exact rbind_noHidden t _ src tgt _ h hnh hnb hcl hsrc rfl (fun c hc => by
+        simp only [Bool.and_eq_true, bne_iff_ne, ne_eq] at hc
+        exact ⟨hc.1.2, hc.2⟩)
+
+/-- a remount or propagation change returns the table as it is -/
+theorem kmount_nonstructural_eq {t t' : KTable} {src tgt fstype : Bytes} {flags : Nat} {data : Bytes}
+    (hs : (hasFlag flags MS_REMOUNT || (flags / 131072) % 16 != 0) = true)
+    (h : kmount t src tgt fstype flags data = .ok t') : t' = t := by
+  unfold kmount at h
+  rw [hs] at h
+  simp only [if_true] at h
+  split at h
+  · cases h
+  · cases h; rfl
+
+/-! ### no behaviour change on tables without hidden mounts -/
+
+/-- the flat model of umount(2): the last entry with that mountpoint -/
+def kumountFlat (t : KTable) (tgt : Bytes) : Except KErr KTable :=
+  match topmostAt t.mnts tgt with
+  | none => .error .einval
+  | some m =>
+    if t.mnts.any (·.parent == m.id) then .error .ebusy
+    else .ok { t with mnts := t.mnts.filter (·.id != m.id) }
+
+/-- the flat choice of a parent: the longest mountpoint containing the path, last among equals -/
+def addMountFlat (t : KTable) (m : KMnt) : KTable :=
+  let parent := match findContaining t.mnts m.mp with
+    | some p => p.id
+    | none => 0
+  { t with mnts := t.mnts ++ [{ m with id := t.nextId, parent := parent }], nextId := t.nextId + 1 }
+
+/-- **on a table without hidden mounts `kumount` is the flat model** -/
+theorem kumount_eq_flat {t : KTable} (h : NoHidden t.mnts) (p : Bytes) : kumount t p = kumountFlat t p := by
+  unfold kumount kumountFlat
+  rw [mountedAt_eq_topmostAt h]
+  rfl
+
+/-- **… and so is the parent `addMount` assigns**, and the source mount of a bind -/
+theorem addMount_eq_flat {t : KTable} (h : NoHidden t.mnts) (m : KMnt) : addMount t m = addMountFlat t m := by
+  unfold addMount addMountFlat
+  rw [resolve_eq_findContaining h]
+  rfl
 
 end Lc.KernelUmount
